@@ -877,6 +877,25 @@ func checkImplCall(c *Ctx, rule string, fn *ssa.Function, typ string, operands [
 				good = false
 			}
 		}
+		// the operand is converted to the operation's own i-th parameter type and to nothing else
+		if conv := convertOf(elems[int64(i)]); conv != nil {
+			tgt := conv.Call.Args[1]
+			okT := false
+			if ld, isLd := tgt.(*ssa.UnOp); isLd {
+				tgt = ld.X
+			}
+			if t, f, base, okF := FieldOf(tgt); okF && strings.HasSuffix(t, "function.Parameter") && f == "Type" {
+				if k, okK := paramsIndexOf(base); okK && k == int64(i) {
+					okT = true
+				}
+			}
+			c2 := "operand " + itoa(i) + " converted to Impl.Params()[" + itoa(i) + "].Type"
+			if okT {
+				c.R.Ok(rule, fname, c2, c.pos(conv.Pos()), "the conversion target is the operation's declared parameter type", true)
+			} else {
+				c.R.Bad(rule, fname, c2, c.pos(conv.Pos()), "the operand is converted to "+DescribeValue(conv.Call.Args[1])+" instead of the operation's declared parameter type: operands of different types are brought together before the operator sees them (e.g. 1 == \"1\" becomes true)")
+			}
+		}
 		cons := "argument " + itoa(i) + " = value of e." + op
 		if good {
 			c.R.Ok(rule, fname, cons, c.pos(call.Pos()), "stems from e."+op+".Value(ctx) through a type conversion", true)
@@ -884,4 +903,67 @@ func checkImplCall(c *Ctx, rule string, fn *ssa.Function, typ string, operands [
 			c.R.Bad(rule, fname, cons, c.pos(call.Pos()), "argument "+itoa(i)+" stems from "+strings.Join(rs.fields(), ", ")+": operands swapped or replaced")
 		}
 	}
+}
+
+// convertOf finds the convert.Convert call an operand value comes from (through tuple extraction and phis).
+func convertOf(v ssa.Value) *ssa.Call {
+	seen := map[ssa.Value]bool{}
+	var rec func(v ssa.Value) *ssa.Call
+	rec = func(v ssa.Value) *ssa.Call {
+		if v == nil || seen[v] {
+			return nil
+		}
+		seen[v] = true
+		switch x := v.(type) {
+		case *ssa.Extract:
+			return rec(x.Tuple)
+		case *ssa.Call:
+			if strings.HasSuffix(CalleeName(x), "cty/convert.Convert") {
+				return x
+			}
+		case *ssa.Phi:
+			for _, e := range x.Edges {
+				if r := rec(e); r != nil {
+					return r
+				}
+			}
+		}
+		return nil
+	}
+	return rec(v)
+}
+
+// paramsIndexOf: v is (a local copy of) element k of the slice returned by function.Function.Params().
+func paramsIndexOf(v ssa.Value) (int64, bool) {
+	for d := 0; d < 4; d++ {
+		switch x := v.(type) {
+		case *ssa.Alloc:
+			var val ssa.Value
+			n := 0
+			for _, r := range *x.Referrers() {
+				if st, ok := r.(*ssa.Store); ok && st.Addr == ssa.Value(x) {
+					val = st.Val
+					n++
+				}
+			}
+			if n != 1 {
+				return 0, false
+			}
+			v = val
+		case *ssa.UnOp:
+			v = x.X
+		case *ssa.IndexAddr:
+			k, ok := ConstInt(x.Index)
+			if !ok {
+				return 0, false
+			}
+			if pc, isCall := x.X.(*ssa.Call); isCall && strings.HasSuffix(CalleeName(pc), "function.Function).Params") {
+				return k, true
+			}
+			return 0, false
+		default:
+			return 0, false
+		}
+	}
+	return 0, false
 }
